@@ -29,6 +29,16 @@ def describe_unknown(tu, sm, t):
     return "; ".join(out)
 
 
+def _imprecise_atoms(d):
+    bad = []
+
+    def fn(a):
+        if a[0] in ("lshr", "ashr", "and", "udiv", "urem", "or", "xor"):
+            bad.append(a)
+    walk_atoms(d, fn)
+    return bad
+
+
 class Checker:
     def __init__(self, tu, rec, prop):
         self.tu = tu
@@ -36,7 +46,7 @@ class Checker:
         self.prop = prop
 
     # ------------------------------------------------------------------------------------------
-    def eq(self, rule, fn, what, got, want, facts, key=None, detail=None, sample=True):
+    def eq(self, rule, fn, what, got, want, facts, key=None, detail=None, sample=True, imprecise_undecided=False):
         """obligation: got == want under facts (for every resolution of γ-conditions)"""
         tu, rec = self.tu, self.rec
         sm = tu.S(fn)
@@ -51,6 +61,13 @@ class Checker:
                 f = add_invariants(tu, fn, f)
                 if f.infeasible():
                     continue
+            # literals chosen early are re-simplified under the later ones; an infeasible case is no case
+            from .rules_cmp import refresh
+            f2 = refresh(f)
+            f2.saturate()
+            if f2.infeasible():
+                continue
+            f = f2
             g, w = simplify(got, f), simplify(want, f)
             d = g - w
             if d.is_const():
@@ -61,7 +78,7 @@ class Checker:
                 continue
             if f.is_zero(d):
                 continue
-            if has_unknown(d):
+            if has_unknown(d) or (imprecise_undecided and _imprecise_atoms(d)):
                 undecided = (f, g, w)
                 continue
             # a non-zero affine form over free state atoms is non-zero for some state
